@@ -24,7 +24,7 @@
 (* with class "n" (name character), "s" (white space) or "o" (other).      *)
 (* Tokens are records:                                                     *)
 (*   [k |-> "un", v], [k |-> "bin", v], [k |-> "hyb", op, var, dom],       *)
-(*   [k |-> "atom", t |-> "prop"|"var"|"wild", name], [k |-> "grp", v]     *)
+(*   [k |-> "atom", t |-> "prop"|"var"|"wild", name], [k |-> "grp", g]     *)
 (* Trees use the JSON shape of Hctl.tla.                                   *)
 (***************************************************************************)
 EXTENDS Naturals, Sequences, FiniteSets, TLC
@@ -37,7 +37,7 @@ TUn(v)   == [k |-> "un", v |-> v]
 TBin(v)  == [k |-> "bin", v |-> v]
 THyb(op, var, dom) == [k |-> "hyb", op |-> op, var |-> var, dom |-> dom]
 TAtom(t, name) == [k |-> "atom", t |-> t, name |-> name]
-TGrp(v)  == [k |-> "grp", v |-> v]
+TGrp(v)  == [k |-> "grp", g |-> v]
 
 (* ------------------------------------------------------------------ Lex *)
 IsName(cs, i)  == i <= Len(cs) /\ cs[i].k = "n"
@@ -147,7 +147,7 @@ RECURSIVE GFormula(_), GLevel(_, _), GUnary(_)
 GPrimary(ts) ==
   IF ts = <<>> THEN GFail
   ELSE IF ts[1].k = "atom" THEN <<LeafOf(ts[1]), Tail(ts)>>
-  ELSE IF ts[1].k = "grp" THEN LET t == GFormula(ts[1].v) IN IF IsOk(t) THEN <<t, Tail(ts)>> ELSE GFail
+  ELSE IF ts[1].k = "grp" THEN LET t == GFormula(ts[1].g) IN IF IsOk(t) THEN <<t, Tail(ts)>> ELSE GFail
   ELSE GFail
 GUnary(ts) ==
   IF ts # <<>> /\ ts[1].k = "un"
@@ -180,7 +180,7 @@ After(ts, i) == SubSeq(ts, i + 1, Len(ts))
 RECURSIVE I1(_), I7(_), I8(_), IBin(_, _)
 I9(ts) == IF Len(ts) # 1 THEN Rej
           ELSE IF ts[1].k = "atom" THEN LeafOf(ts[1])
-          ELSE IF ts[1].k = "grp" THEN I1(ts[1].v)
+          ELSE IF ts[1].k = "grp" THEN I1(ts[1].g)
           ELSE Rej
 I8(ts) == LET i == FirstIdx(ts, LAMBDA t : t.k = "un", 1) IN
           IF i = 0 THEN I9(ts)
